@@ -21,11 +21,11 @@ PROPS = {
             "a record referencing an interface in any phase (including Deleting) counts as a reference; an interface with an unparsable creation time is of unknown age and must not be reaped",
             "a release of a fixed-IP record whose podLastSeen was never set (pod left before the first attach) is accepted (the oracle measures from status.podLastSeen as the property's anchor says); counted under label gc-release:never-seen",
         ],
-        level_text="about 1500 closed-loop histories, 4000 retention populations and 4000 leak-GC populations per quick run (30000 / 100000 / 100000 thorough) against the real collectors; exploration, not proof",
+        level_text="about 1500 closed-loop histories, 4000 retention populations and 4000 leak-GC populations per quick run (60000 / 250000 / 250000 thorough) against the real collectors; exploration, not proof",
         level_note="TTL and grace boundaries are approached to within 3 s, not hit exactly; Describe filters of the simulator follow the documented ECS semantics (type/status/tag filters are honoured); "
                    "the periodic scheduling of the collectors (wait.JitterUntil) is replaced by explicit passes",
-        tests=[dict(unit="c10loop", test="TestVerifC11ClosedLoop", quick=1500, thorough=30000),
-               dict(unit="c10loop", test="TestVerifC11Retention", quick=4000, thorough=100000),
-               dict(unit="c10loop", test="TestVerifC11LeakGC", quick=4000, thorough=100000)],
+        tests=[dict(unit="c10loop", test="TestVerifC11ClosedLoop", quick=1500, thorough=60000),
+               dict(unit="c10loop", test="TestVerifC11Retention", quick=4000, thorough=250000),
+               dict(unit="c10loop", test="TestVerifC11LeakGC", quick=4000, thorough=250000)],
     ),
 }
